@@ -278,10 +278,10 @@ def raw_fractions(ch, scaler=None):
 
 
 # ------------------------------------------------------------------------------ sensor scales (properties only)
-def sensor_scale_props(rng, index=0, src=RAW):
+def sensor_scale_props(rng, index=0, src=RAW, kind=None):
     """Properties of one RTD / Thermocouple / Thermistor / Strain scale with benign parameters (used by C14,
     which judges dtype and length only; the physics is C17/C18's business)."""
-    kind = rng.choice(['RTD', 'Thermocouple', 'Thermistor', 'Strain'])
+    kind = kind or rng.choice(['RTD', 'Thermocouple', 'Thermistor', 'Strain'])
     p = 'NI_Scale[%d]_' % index
     out = [[p + 'Scale_Type', 'str', kind]]
     if kind == 'RTD':
